@@ -96,11 +96,19 @@ func genNames(s *src, o *out) {
 		body := s.text(cf.Body)
 		shapeOK = len(cf.Body.List) == 3 && usesIsPathSeparator &&
 			strings.HasPrefix(body, "{ if name == ") &&
-			strings.Contains(body, "for i := 0; i < len(name); i++ { if name[i] == ") &&
+			strings.Contains(body, "for i := 0; i < len(name); i++ { if ") &&
 			strings.HasSuffix(body, "return nil }") &&
 			strings.Count(body, "return") == 3 && strings.Count(body, "return simpleTrzszError(") == 2
 		if !shapeOK {
 			die("checkFileName has an unexpected shape: %s", body)
+		}
+		// os.IsPathSeparator on Unix is exactly '/'
+		has := false
+		for _, b := range bytesRejected {
+			has = has || b == '/'
+		}
+		if !has {
+			bytesRejected = append(bytesRejected, '/')
 		}
 	}
 	o.raw("Definition names_check_present : bool := %v.\n", shapeOK)
